@@ -524,13 +524,20 @@ func run(input string) string {
 	if hangs.Load() >= 12 {
 		return "HANG"
 	}
-	if mode := drv.KV(input)["mode"]; mode == "lconc" || mode == "lnconc" {
+	mode := drv.KV(input)["mode"]
+	if mode == "lconc" || mode == "lnconc" {
 		// runs in the instrumented worker process, one case at a time; the time limit starts when its turn has come
 		o := runInWorker(input)
-		if o == "HANG" || o == "CRASH" {
+		if o == "HANG" || o == "CRASH" || strings.HasSuffix(o, ":HANG") {
 			hangs.Add(1)
 		}
 		return o
+	}
+	limit, onLimit := caseTimeout, "HANG"
+	if mode == "nconc" {
+		// the controller finds a deadlock by itself (every caller waits for a lock and stays so: HANG); running out of
+		// time on top of that is slowness of the machine: inconclusive
+		limit, onLimit = workerCaseTimeout, "TIMEOUT"
 	}
 	done := make(chan string, 1)
 	go func() {
@@ -544,9 +551,11 @@ func run(input string) string {
 	select {
 	case o := <-done:
 		return o
-	case <-time.After(caseTimeout):
-		hangs.Add(1)
-		return "HANG"
+	case <-time.After(limit):
+		if onLimit == "HANG" {
+			hangs.Add(1)
+		}
+		return onLimit
 	}
 }
 
